@@ -300,6 +300,12 @@ def work(shard, tier):
                 # a longer presentation of a number whose shorter form is protected (BN15 = BN9 + program account): the
                 # protected part stays protected
                 for k in sorted({len(x) for x in nums if len(x) < len(v)}, reverse=True):
+                    # only if the numbers of this length as a rule begin with a valid shorter number (not by accident)
+                    same = [x for x in nums if len(x) == len(v)]
+                    hits = sum(1 for x in same if C.outcome(mod.is_valid, x[:k]) == ('ok', True))
+                    lettered_tail = v[k:k + 1].isalpha() and v[:k].isdigit()      # 123456789 + RC0001: not a longer number
+                    if hits < len(same) * 0.6 or (len(same) < 3 and not lettered_tail):
+                        continue   # (by accident about one number in ten begins with a valid shorter one)
                     del seen[:]
                     if C.outcome(mod.is_valid, v[:k]) == ('ok', True) and seen:
                         args = [a for _t, a in seen]
